@@ -253,7 +253,8 @@ func (s *Server) verifyConsensusFieldMain(cp *params.CaravelParams, seedHeader *
 	}
 	isValid, err := VrfVerifyPriority(vrfPK, seedCon.Seed, consensusData.RoundIndex, UConStepProposal, consensusData.SortitionProof,
 		consensusData.Priority, consensusData.SubUsers, cp.ProposerThreshold, validator.Stake, vs.GetStakeByKind(params.KindChamber))
-	if err != nil || !isValid {
+	// a validator that won no proposer seat (SubUsers == 0) is not a proposer
+	if err != nil || !isValid || consensusData.SubUsers == 0 {
 		logging.Error("VerifyHeader failed, priority is invalid.", "Round", consensusData.Round, "RoundIndex", consensusData.RoundIndex,
 			"hash", header.Hash().String(), "parent", header.ParentHash.String(), "stake", validator.Stake, "totalStake", vs.GetStakeByKind(params.KindChamber), "err", err)
 		return errInvalidConsensusData
